@@ -573,7 +573,9 @@ func c02Gen(r *rand.Rand, id int, thorough bool) c02Cfg {
 		c.Script = "timeouts"
 	case k < 50:
 		c.Script = "fin" // End's last bytes arrive together with io.EOF after a complete exchange
-	case k < 58:
+	case k < 55:
+		c.Script = "dup-target" // a second target-side attach for the same tunnel while the pipe carries data
+	case k < 61:
 		c.Script = "reattach" // the source end re-attaches on a new connection mid-stream
 	case k < 78:
 		c.Script = "close"
@@ -603,7 +605,7 @@ func c02Gen(r *rand.Rand, id int, thorough bool) c02Cfg {
 	// offset of the event within the relevant stream
 	rel := 0
 	switch c.Script {
-	case "close", "bridge-close":
+	case "close", "bridge-close", "dup-target":
 		// trigger counts bytes received (rd) or written (wr) by client End
 		if (c.End == "src") == (c.On == "wr") {
 			rel = c.S2T
@@ -878,6 +880,54 @@ func c02CloseTag(b *Bridge) string  { return fmt.Sprintf("tunnel.(*Bridge).Close
 func c02ReaderTag(e *c02End) string { return fmt.Sprintf("tunnel.(*c02End).reader(%p", e) }
 func c02WriterTag(e *c02End) string { return fmt.Sprintf("tunnel.(*c02End).writer(%p", e) }
 
+// c02PacingIdle: like c02Parked, but goroutines of the bridge may also sit in a timed wait
+// (select/sleep - what pacing looks like), provided the bridge's token bucket is FULL at
+// each of the three observations. A waiter that has reserved tokens keeps the bucket at
+// or below zero until its wake-up time, so a full bucket means no reservation is
+// outstanding: a goroutine still in a timed wait then is not waiting for tokens (virtual
+// token time, read through Bridge.GetRateLimiter()).
+func c02PacingIdle(b *Bridge, ends ...*c02End) (bool, string) {
+	lim := b.GetRateLimiter()
+	if lim == nil || lim.Burst() <= 0 {
+		return false, ""
+	}
+	tags := []string{c02BridgeTag(b), c02StartTag(b), c02CloseTag(b)}
+	for _, e := range ends {
+		tags = append(tags, c02ReaderTag(e), c02WriterTag(e))
+	}
+	progress := func() (n int64) {
+		for _, e := range ends {
+			n += e.got.Load()
+		}
+		return
+	}
+	p0 := progress()
+	prev := ""
+	for i := 0; i < 3; i++ {
+		if lim.TokensAt(time.Now()) < float64(lim.Burst())-0.5 {
+			return false, "bucket-not-full"
+		}
+		sig, parked, others := c02Tagged(tags)
+		timed := 0
+		for _, o := range others {
+			if o == "timer" || o == "other:select" || o == "other:sleep" {
+				timed++
+			} else {
+				return false, sig
+			}
+		}
+		if timed == 0 || parked == 0 || (i > 0 && sig != prev) {
+			return false, sig
+		}
+		prev = sig
+		time.Sleep(100 * time.Millisecond)
+	}
+	if progress() != p0 || lim.TokensAt(time.Now()) < float64(lim.Burst())-0.5 {
+		return false, prev
+	}
+	return true, prev
+}
+
 // c02Parked reports whether every goroutine of the bridge (and of the given harness
 // readers, which must have nothing left to consume) is parked in a transport read (or
 // waiting for such a goroutine) in three consecutive dumps, with no progress of the
@@ -952,6 +1002,12 @@ func c02RunCase(run *vk.Run, nw *c02Net, cfg c02Cfg) (out c02Outcome) {
 	}
 	if cfg.Script == "bulk-close" {
 		return c02RunBulkClose(run, nw, cfg)
+	}
+	if cfg.Script == "dup-target" {
+		// the orderly end is made by the first target (what the pinned forwarder reads);
+		// which connections the server closes when the SOURCE ends after a duplicate attach
+		// is not judged here
+		cfg.Closer = "tgt"
 	}
 	lc := c02LimitClass(cfg.Limit)
 	ctx, cancel := context.WithCancel(context.Background())
@@ -1031,6 +1087,9 @@ func c02RunCase(run *vk.Run, nw *c02Net, cfg c02Cfg) (out c02Outcome) {
 	// event script
 	caseOver := make(chan struct{})
 	attached := make(chan struct{})
+	var dupCli net.Conn
+	var dupSrv *c02Conn
+	var dupAttached atomic.Bool
 	var induced atomic.Bool     // the harness is about to close/fail an end or close the bridge
 	var inducedDone atomic.Bool // ... and that action has returned
 	var trig *c02Trigger
@@ -1042,6 +1101,29 @@ func c02RunCase(run *vk.Run, nw *c02Net, cfg c02Cfg) (out c02Outcome) {
 		// the property speaks about a tunnel whose two ends are attached: the server-side
 		// teardown is injected only after the target has been attached
 		trig = &c02Trigger{at: cfg.At, fn: func() { <-attached; induced.Store(true); bridge.Close(); inducedDone.Store(true) }}
+	case "dup-target":
+		// a duplicate TunnelOpen from the target side (client retry / duplicated notification)
+		// reaches SetTargetConnection again while source <-> first target carry data. Neither
+		// live end closes: the established pipe must keep delivering everything.
+		dcli, dsrv := vk.BufPipe("10.9.0.2:5001", "127.0.0.1:7000")
+		dupCli, dupSrv = dcli, c02Wrap(dsrv)
+		trig = &c02Trigger{at: cfg.At, fn: func() {
+			go func() {
+				<-attached
+				// only once the pipe source <-> first target demonstrably carries data (the
+				// bridge has read from or written to the first target's connection): two
+				// target attaches racing BEFORE forwarding starts are a different question
+				for srvT.rd.Load()+srvT.wr.Load() == 0 {
+					select {
+					case <-caseOver:
+						return
+					case <-time.After(200 * time.Microsecond):
+					}
+				}
+				bridge.SetTargetConnection(&c02TunnelConn{id: "dup", conn: dupSrv})
+				dupAttached.Store(true)
+			}()
+		}}
 	case "err-read":
 		c02Pick(S, T, cfg.End).srv.readFailAt = cfg.At
 		c02Pick(S, T, cfg.End).srv.readFailErr = c02FailErr(cfg.ErrClass)
@@ -1203,6 +1285,14 @@ phaseA:
 					out.stalled = true
 					break phaseA
 				}
+				if cfg.Limit > 0 {
+					if idle, sig := c02PacingIdle(bridge, S, T); idle && undelivered() {
+						run.Violation("C02:stall|limit="+lc+"|cause=pacing-wait-without-token-debt", detail(map[string]any{"goroutines": sig,
+							"what": "all bytes were handed to the tunnel, neither end closed; a copy goroutine sits in a timed wait although the token bucket has been full in three consecutive observations (nothing is owed, so no reservation is pending): the wait is not for tokens that will come and the undelivered bytes never move"}))
+						out.stalled = true
+						break phaseA
+					}
+				}
 			}
 		case <-wd.C:
 			run.Count("watchdog", 1)
@@ -1343,6 +1433,19 @@ phaseA:
 
 	// ---- cleanup ----
 	close(caseOver)
+	if dupCli != nil {
+		if dupAttached.Load() {
+			run.Count("dup_target_attached_mid_stream", 1)
+			if out.complete {
+				run.Count("dup_target_pipe_kept_delivering", 1)
+			}
+			if n := dupSrv.wr.Load(); n > 0 {
+				run.Count("dup_target_received_tunnel_bytes", 1)
+			}
+		}
+		dupCli.Close()
+		dupSrv.Close()
+	}
 	cliS.Close()
 	cliT.Close()
 	bridge.Close()
@@ -2269,6 +2372,9 @@ func c02Directed() []c02Cfg {
 	add(func(c *c02Cfg) { c.Limit = 64 * 1024; c.S2T = 100000; c.T2S = 100000; c.ChunkS = "mid"; c.ChunkT = "big" })
 	add(func(c *c02Cfg) { c.Limit = 1 << 20; c.S2T = 1<<20 + 1; c.T2S = 1500000; c.ChunkS = "big"; c.ChunkT = "big"; c.SrcT = "buf"; c.TgtT = "tcp" })
 	add(func(c *c02Cfg) { c.Limit = 1 << 30; c.S2T = 1500000; c.T2S = 1<<20 + 1; c.ChunkS = "big"; c.ChunkT = "whole"; c.SrcT = "buf"; c.TgtT = "buf" })
+	// duplicate target-side attach while the pipe carries data
+	add(func(c *c02Cfg) { c.Script = "dup-target"; c.S2T = 200000; c.T2S = 200000; c.At = 50000; c.ChunkS = "small"; c.ChunkT = "small"; c.Closer = "tgt" })
+	add(func(c *c02Cfg) { c.Script = "dup-target"; c.SrcT = "tcp"; c.TgtT = "buf"; c.S2T = 70000; c.T2S = 1 << 20; c.At = 1000; c.On = "wr"; c.End = "tgt"; c.ChunkT = "mid"; c.Closer = "tgt"; c.Stream = true })
 	// bulk transfer larger than the socket buffers, sender closes while the receiver drains
 	add(func(c *c02Cfg) { c.Script = "bulk-close"; c.End = "src"; c.SrcT = "tcp"; c.S2T = 6 << 20; c.ChunkS = "big" })
 	add(func(c *c02Cfg) { c.Script = "bulk-close"; c.End = "tgt"; c.TgtT = "tcp"; c.S2T = 6 << 20; c.ChunkS = "big"; c.Stream = true })
@@ -2316,7 +2422,7 @@ func TestVerifC02BytePipe(t *testing.T) {
 	vk.Quiet()
 	run := vk.Start(t, "C02", "bytepipe")
 	defer run.Finish()
-	run.Rule("a real tunnel.Bridge between two harness clients; per case: transports per end {net.Pipe, unbounded in-memory pipe, loopback TCP}, raw conn or real StreamProcessor, or (TCP ends) the raw *net.TCPConn plus a stream whose reader/writer apply a position-dependent XOR keystream over the socket, bandwidth limit {0, 500..16383 (burst < 32KiB copy buffer), 64KiB/s, 1MiB/s, 1GiB/s}, 0..1.5MiB (thorough 8MiB) per direction simultaneously (sizes of limited cases chosen so a correct transfer needs <= 1.5s, plus a few slow-but-legal cases: 500..4000 B/s with one write of 6-10x the limit, 4-8 s), seeded write chunkings (1B..256KiB / whole), server-side short reads, client read buffers 1B..64KiB, target attached before/after Start/after the source started writing, scripts {none, injected read timeouts (bare or together with data), an end finishing after a complete exchange with its last bytes delivered together with io.EOF, source re-attach on a new connection at a seeded hand-over offset with the old connection left open (then optionally bytes from the new source end, then the target or the new source end closes while the old connection is still open), client close at a seeded offset, server-side read/write failure at a seeded offset (bare or with data; the sticky read error is plain, Timeout&&!Temporary, Temporary&&!Timeout or a net.Error that is neither), Bridge.Close at a seeded offset, bulk transfer (4-6 MiB, one direction) after which the sender closes while a logically slow TCP receiver still has more than 1 MiB queued towards it}; distinct = (transports, stream, limit class, attach, script, size buckets) of cases that delivered at least one byte")
+	run.Rule("a real tunnel.Bridge between two harness clients; per case: transports per end {net.Pipe, unbounded in-memory pipe, loopback TCP}, raw conn or real StreamProcessor, or (TCP ends) the raw *net.TCPConn plus a stream whose reader/writer apply a position-dependent XOR keystream over the socket, bandwidth limit {0, 500..16383 (burst < 32KiB copy buffer), 64KiB/s, 1MiB/s, 1GiB/s}, 0..1.5MiB (thorough 8MiB) per direction simultaneously (sizes of limited cases chosen so a correct transfer needs <= 1.5s, plus a few slow-but-legal cases: 500..4000 B/s with one write of 6-10x the limit, 4-8 s), seeded write chunkings (1B..256KiB / whole), server-side short reads, client read buffers 1B..64KiB, target attached before/after Start/after the source started writing, scripts {none, injected read timeouts (bare or together with data), an end finishing after a complete exchange with its last bytes delivered together with io.EOF, source re-attach on a new connection at a seeded hand-over offset with the old connection left open (then optionally bytes from the new source end, then the target or the new source end closes while the old connection is still open), client close at a seeded offset, server-side read/write failure at a seeded offset (bare or with data; the sticky read error is plain, Timeout&&!Temporary, Temporary&&!Timeout or a net.Error that is neither), Bridge.Close at a seeded offset, a duplicate target-side SetTargetConnection at a seeded offset (the established pipe must keep delivering), bulk transfer (4-6 MiB, one direction) after which the sender closes while a logically slow TCP receiver still has more than 1 MiB queued towards it}; distinct = (transports, stream, limit class, attach, script, size buckets) of cases that delivered at least one byte")
 
 	ln, err := net.Listen("tcp", "127.0.0.1:0")
 	if err != nil {
@@ -2356,12 +2462,19 @@ func TestVerifC02BytePipe(t *testing.T) {
 	// still arrive (the waiting itself is not judged). These cases mostly sleep in the
 	// limiter and run on their own goroutines next to the worker pool.
 	sr := run.Rand("slow")
-	nSlow, slowLanes := run.Pick(6, 24), 6
+	nSlow, slowLanes := run.Pick(9, 36), 9
 	slow := make([]c02Cfg, nSlow)
 	for i := range slow {
-		l := []int64{500, 1000, 2000, 4000}[i%4]
+		l := []int64{500, 1000, 2000, 4000, 4096, 8192, 12288, 8192, 4096}[i%9]
 		big := int(l) * (6 + sr.Intn(5))
-		if big > 32000 {
+		if l >= 4096 {
+			// 4/8/12 KiB/s with one write of 20-64 KiB (<= 10x the limit: at most 8 s)
+			hi := 64 * 1024
+			if hi > int(l)*10 {
+				hi = int(l) * 10
+			}
+			big = 20*1024 + sr.Intn(hi-20*1024+1)
+		} else if big > 32000 {
 			big = 32000
 		}
 		c := c02Cfg{ID: 100000 + i, SrcT: []string{"pipe", "pipe", "buf", "tcp"}[sr.Intn(4)], TgtT: []string{"pipe", "buf", "tcp"}[sr.Intn(3)],
@@ -2391,6 +2504,9 @@ func TestVerifC02BytePipe(t *testing.T) {
 				}
 				if o.complete {
 					run.Count("slow_legal_complete", 1)
+					if slow[i].Limit >= 4096 {
+						run.Count("slow_legal_kib_limits_complete", 1)
+					}
 				}
 			}
 		}(lane)
@@ -2462,9 +2578,11 @@ func TestVerifC02BytePipe(t *testing.T) {
 	run.Floor("reads_returning_data_and_error", 20)
 	run.Floor("fin_with_data_fired", 5)
 	run.Floor("reattach_suffix_exact", 5)
+	run.Floor("dup_target_pipe_kept_delivering", int64(run.Pick(5, 50)))
 	run.Floor("reattach_closure_ok", 5)
 	run.Floor("reattach_new_source_bytes_delivered", 2)
-	run.Floor("slow_legal_complete", int64(run.Pick(4, 16)))
+	run.Floor("slow_legal_complete", int64(run.Pick(6, 24)))
+	run.Floor("slow_legal_kib_limits_complete", int64(run.Pick(3, 12)))
 }
 
 // TestVerifC02EarlyEnd drives the interleaving "one direction ends before the other copy
